@@ -7,4 +7,14 @@ REPO="${FPCHECK_REPO:-/repo}"
 if [ "$1" = "--replay" ]; then
   exec ./bin/fpcheck -repo "$REPO" -verif "$(pwd)" -replay "$2"
 fi
-exec ./bin/fpcheck -repo "$REPO" -verif "$(pwd)" -property "$1" -tier "${2:-${VERIF_TIER:-quick}}"
+TIER="${2:-${VERIF_TIER:-quick}}"
+if [ "$TIER" = "thorough" ]; then
+  # canaries: each rule of the property must fire on the mutants of mutants/corpus.py that break it
+  CAN="$(mktemp "${TMPDIR:-/tmp}/fpcanary.XXXXXX")"
+  FPCHECK_REPO="$REPO" python3 selftest.py --canary "$1" "$CAN" >/dev/null 2>&1 || echo '[]' > "$CAN"
+  ./bin/fpcheck -repo "$REPO" -verif "$(pwd)" -property "$1" -tier thorough -canary "$CAN"
+  rc=$?
+  rm -f "$CAN"
+  exit $rc
+fi
+exec ./bin/fpcheck -repo "$REPO" -verif "$(pwd)" -property "$1" -tier "$TIER"
